@@ -4134,16 +4134,33 @@ func (p *Prog) ownBackingArray() []Ob {
 				if _, isSlice := f.Type().Underlying().(*types.Slice); !isSlice {
 					continue
 				}
-				// the append result stored back is the growth itself
-				if c, ok := st.Val.(*ssa.Call); ok && isBuiltinCall(c.Common(), "append") {
+				// the append result stored back is the growth itself; an append onto something
+				// else is judged by what it appends onto
+				val := st.Val
+				growth := false
+				for d := 0; d < 4; d++ {
+					c, ok := val.(*ssa.Call)
+					if !ok || !isBuiltinCall(c.Common(), "append") || len(c.Call.Args) == 0 {
+						break
+					}
+					if g, _ := loadedField(canon(c.Call.Args[0])); g == f {
+						growth = true
+						break
+					}
+					val = c.Call.Args[0]
+				}
+				if growth {
 					continue
 				}
 				n++
 				k++
 				ob := Ob{Rule: "R8", Inst: fmt.Sprintf("K2b:own-backing-array:%s#%d", funcLabel(fn), k), Props: []string{"C09"}, Pos: p.at(st), Func: funcLabel(fn), Nontrivial: true}
 				shared := ""
-				if sl, ok := st.Val.(*ssa.Slice); ok && sl.Max == nil {
-					if _, fresh := sl.X.(*ssa.Alloc); !fresh || sl.Low != nil || sl.High != nil {
+				if sl, ok := val.(*ssa.Slice); ok && sl.Max == nil {
+					// make([]T, n, constant) and a slice literal are an array of their own, sliced once
+					al, isAlloc := sl.X.(*ssa.Alloc)
+					own := isAlloc && (al.Comment == "makeslice" || al.Comment == "slicelit")
+					if !own && (!isAlloc || sl.Low != nil || sl.High != nil) {
 						shared = "a two-index sub-slice (" + sl.String() + ")"
 					}
 				}
@@ -4157,7 +4174,13 @@ func (p *Prog) ownBackingArray() []Ob {
 		}
 	}
 	if n == 0 {
-		obs = append(obs, Ob{Rule: "R8", Inst: "K2b:own-backing-array", Props: []string{"C09"}, Pos: "-", Status: Undecided, Msg: "no initialisation of an appended-to list found in the index package"})
+		ob := Ob{Rule: "R8", Inst: "K2b:own-backing-array", Props: []string{"C09"}, Pos: "-", Status: Undecided, Msg: "no appended-to list found in the index package"}
+		for f := range grown {
+			if f.Pkg() != nil && f.Pkg().Path() == pkgIndex {
+				ob.Status, ob.Msg = Discharged, "the appended-to lists of the index package are never initialised from another slice (they start empty)"
+			}
+		}
+		obs = append(obs, ob)
 	}
 	return obs
 }
